@@ -250,6 +250,21 @@ func propC03(t *rapid.T, r *vstat.Run) {
 			}
 			return
 		}
+		if rapid.IntRange(0, 9).Draw(t, "brfamily") == 0 {
+			// several entries into one back-referencing state per definition, with colliding group texts
+			rs, input := lexgen.GenBackrefFamily(t)
+			def, rej := newDef(rs)
+			if rej != "" {
+				r.Count("definition_rejected_by_constructor")
+				return
+			}
+			r.Count("backreference_family_definitions")
+			for i := 0; i < 8; i++ {
+				c := newLexCase(rs, input(t))
+				report(t, r, checkC03(c, def, r), c)
+			}
+			return
+		}
 		g := lexgen.GenRuleSet(t, lexgen.RuleOpts{})
 		def, rej := newDef(g.RS)
 		if rej != "" {
